@@ -247,6 +247,8 @@ type HLog struct {
 	RecvErr     error
 	RecvCalls   int
 	Sent        int
+	SentMsgs    []proto.Message // the very objects passed to Send (kept to see that nobody touches them afterwards)
+	SentIdx     []int
 	SendErr     error
 	SendErrAt   int
 	CtxErrEnd   error
@@ -473,7 +475,9 @@ func (w *World) unary(ctx context.Context, full string, md protoreflect.MethodDe
 	}
 	l.Sent = 1 // whether it reaches the client is judged from the response bytes
 	l.setSent(1)
-	return rs.method.mkResp(p), nil
+	out := rs.method.mkResp(p)
+	l.SentMsgs, l.SentIdx = append(l.SentMsgs, out), append(l.SentIdx, 0)
+	return out, nil
 }
 
 func (w *World) stream(full string, md protoreflect.MethodDescriptor, stream grpc.ServerStream) error {
@@ -518,6 +522,7 @@ func (w *World) stream(full string, md protoreflect.MethodDescriptor, stream grp
 		start := w.sim.StepNo()
 		err := stream.SendMsg(m)
 		l.Calls = append(l.Calls, callRec{Kind: 'S', Start: start, End: w.sim.StepNo(), Err: err})
+		l.SentMsgs, l.SentIdx = append(l.SentMsgs, m), append(l.SentIdx, i)
 		l.setIn(false, false)
 		if err != nil {
 			l.SendErr, l.SendErrAt, sendFailed, failed = err, i, true, true
